@@ -438,9 +438,78 @@ def _setattr(E, st, args, kw, n):
     raise Unsupported("setattr on %s" % o.ty)
 
 
+def _key_le(a, b):
+    """a <= b for key values of the same shape: bools (False < True), ints, strings (lexicographic), tuples of those"""
+    if a.ty.kind == "tuple" and b.ty.kind == "tuple" and len(a.items) == len(b.items):
+        if not a.items:
+            return z3.BoolVal(True)
+        x, y = a.items[0], b.items[0]
+        lt = z3.And(_key_le(x, y), z3.Not(_key_le(y, x)))
+        eq = z3.And(_key_le(x, y), _key_le(y, x))
+        rest = _key_le(_tail(a), _tail(b))
+        return z3.Or(lt, z3.And(eq, rest))
+    if a.ty.kind == "bool" and b.ty.kind == "bool":
+        return z3.Implies(a.t, b.t)
+    if a.ty.kind == "int" and b.ty.kind == "int":
+        return a.t <= b.t
+    if a.ty.kind == "str" and b.ty.kind == "str":
+        return a.t <= b.t
+    raise Unsupported("sort key of type %s" % a.ty)
+
+
+def _tail(v):
+    from .types import vtuple
+    return vtuple(list(v.items[1:]))
+
+
 @static("builtins:sorted")
 def _sorted(E, st, args, kw, n):
-    raise Unsupported("sorted() needs an assumed contract at this call site")
+    """sorted(<set or list of scalars>, key=lambda x: <pure expression>): a new list with exactly the elements of the argument
+    (a set: each once) in an order in which the keys never decrease.  Keys: bools, ints, strings, tuples of those."""
+    import ast as _ast
+    if len(args) != 1 or set(kw) - {"key"} or "key" not in kw or kw["key"].ty.kind != "closure" \
+            or not isinstance(kw["key"].py[0], _ast.Lambda) or len(kw["key"].py[0].args.args) != 1:
+        raise Unsupported("sorted() needs an assumed contract at this call site (line %d)" % n.lineno)
+    it = args[0]
+    if it.ty.kind == "set":
+        et = it.ty.args[0]
+        src = E.set_elem_seq(st, it)
+    elif is_listlike(it.ty):
+        src = ops.as_seq(st, it)
+        et = src.ty.args[0]
+    else:
+        raise Unsupported("sorted() over %s" % it.ty)
+    if et.kind not in ("str", "int"):
+        raise Unsupported("sorted() over elements of type %s" % et)
+    r = fresh(SEQ(et), "sorted")
+    x = z3.Const("x!srt%d" % r.t.hash(), sort_of(et))
+    st.assume(z3.Length(r.t) == z3.Length(src.t))
+    st.assume(z3.ForAll([x], z3.Contains(r.t, z3.Unit(x)) == z3.Contains(src.t, z3.Unit(x))))
+    if it.ty.kind == "set":
+        # membership in the whole result, in the vocabulary loop invariants use (in_prefix up to the full length)
+        from .speceval import in_prefix_fn
+        dom = st.set_get(it)
+        st.assume(z3.ForAll([x], in_prefix_fn(sort_of(et))(r.t, z3.Length(r.t), x) == z3.Select(dom, x),
+                            patterns=[in_prefix_fn(sort_of(et))(r.t, z3.Length(r.t), x), z3.Select(dom, x)]))
+    # the key of an arbitrary element, evaluated once symbolically (it has to be a pure, single-path expression)
+    lam, cenv, cframes = kw["key"].py
+    e1, e2 = fresh(et, "key_a"), fresh(et, "key_b")
+    keys = []
+    for e in (e1, e2):
+        probe = st.fork()
+        probe.env = {lam.args.args[0].arg: e}
+        probe.frames = cframes + [cenv]
+        npc = len(probe.pc)
+        outs = list(E.ev(lam.body, probe))
+        if len(outs) != 1 or isinstance(outs[0][1], Raised) or len(outs[0][0].pc) != npc:
+            raise Unsupported("sort key is not a pure single-path expression (line %d)" % n.lineno)
+        keys.append(outs[0][1])
+    le = _key_le(keys[0], keys[1])
+    i, j = z3.Int("i!srt%d" % r.t.hash()), z3.Int("j!srt%d" % r.t.hash())
+    st.assume(z3.ForAll([i, j], z3.Implies(z3.And(0 <= i, i < j, j < z3.Length(r.t)),
+                                           z3.substitute(le, (e1.t, r.t[i]), (e2.t, r.t[j]))),
+                        patterns=[z3.MultiPattern(r.t[i], r.t[j])]))
+    yield st, E.alloc_list(st, r, et)
 
 
 @static("builtins:max", "builtins:min")
